@@ -137,6 +137,113 @@ impl BangType {
     }
 }
 
+spec fn post_emit_bang<'b>(pre: &ReaderState, post: &ReaderState, bang_type: BangType, buf: Seq<u8>, r: core::result::Result<Event<'b>, Error>) -> bool {
+                &&& post.same_control(pre) && post.same_stack(pre)
+                &&& r is Ok ==> post.last_error_offset == pre.last_error_offset
+                &&& r is Err ==> post.last_error_offset <= post.offset
+                &&& post_emit_bang_(pre, post, bang_type, buf, r)
+}
+spec fn post_emit_bang_<'b>(pre: &ReaderState, post: &ReaderState, bang_type: BangType, buf: Seq<u8>, r: core::result::Result<Event<'b>, Error>) -> bool {
+                let len = buf.len() as int;
+                if bang_type is Comment && sw(buf, seq![0x21u8, 0x2d, 0x2d]) {
+                    if pre.config.check_comments && exists|p: int| double_hyphen_at(buf, p) {
+                        r matches Err(Error::IllFormed(IllFormedError::DoubleHyphenInComment))
+                    } else {
+                        r matches Ok(Event::Comment(e)) && e.content@ == buf.subrange(3, len - 2)
+                    }
+                } else if bang_type is CData && sw(buf, seq![0x21u8, 0x5b, 0x43, 0x44, 0x41, 0x54, 0x41, 0x5b]) {
+                    r matches Ok(Event::CData(e)) && e.content@ == buf.subrange(8, len - 2)
+                } else if bang_type == BangType::DocType(0) && uncased_sw(buf, seq![0x21u8, 0x44, 0x4f, 0x43, 0x54, 0x59, 0x50, 0x45]) {
+                    if exists|i: int| 8 <= i < len && !is_ws(buf[i]) {
+                        r matches Ok(Event::DocType(e)) && e.content@ == trimmed_start(buf.subrange(8, len))
+                    } else {
+                        &&& r matches Err(Error::IllFormed(IllFormedError::MissingDoctypeName))
+                        &&& post.last_error_offset == pre.offset - 1
+                    }
+                } else {
+                    &&& r matches Err(Error::Syntax(e)) && e == bang_type.spec_to_err()
+                    &&& post.last_error_offset == pre.offset - len - 2
+                }
+            }
+
+spec fn post_emit_end<'b>(pre: &ReaderState, post: &ReaderState, buf: Seq<u8>, r: core::result::Result<Event<'b>, Error>) -> bool {
+                &&& post.wf() && post.same_control(pre)
+                &&& r is Ok ==> post.last_error_offset == pre.last_error_offset
+                &&& r is Err ==> post.last_error_offset <= post.offset
+                &&& post_emit_end_(pre, post, buf, r)
+}
+spec fn post_emit_end_<'b>(pre: &ReaderState, post: &ReaderState, buf: Seq<u8>, r: core::result::Result<Event<'b>, Error>) -> bool {
+                let s = pre.stack();
+                let name = end_name(buf.subrange(1, buf.len() as int), pre.config.trim_markup_names_in_closing_tags);
+                if s.len() > 0 {
+                    &&& post.stack() == s.drop_last()
+                    &&& if !pre.config.check_end_names || name == s.last() {
+                            r matches Ok(Event::End(e)) && e.name@ == name
+                        } else {
+                            &&& r matches Err(Error::IllFormed(IllFormedError::MismatchedEndTag { expected, found }))
+                                && expected == dec_string(pre.decoder_spec(), s.last()) && found == dec_string(pre.decoder_spec(), name)
+                            &&& post.last_error_offset == pre.offset - buf.len() - 2
+                        }
+                } else {
+                    &&& post.stack() == s
+                    &&& if pre.config.allow_unmatched_ends {
+                            r matches Ok(Event::End(e)) && e.name@ == name
+                        } else {
+                            &&& r matches Err(Error::IllFormed(IllFormedError::UnmatchedEndTag(found))) && found == dec_string(pre.decoder_spec(), name)
+                            &&& post.last_error_offset == pre.offset - buf.len() - 2
+                        }
+                }
+            }
+
+spec fn post_emit_question_mark<'b>(pre: &ReaderState, post: &ReaderState, buf: Seq<u8>, r: core::result::Result<Event<'b>, Error>) -> bool {
+                &&& post.same_control(pre) && post.same_stack(pre)
+                &&& r is Err ==> post.last_error_offset <= post.offset
+                &&& post_emit_question_mark_(pre, post, buf, r)
+}
+spec fn post_emit_question_mark_<'b>(pre: &ReaderState, post: &ReaderState, buf: Seq<u8>, r: core::result::Result<Event<'b>, Error>) -> bool {
+                let len = buf.len() as int;
+                if len > 1 && buf[len - 1] == 0x3f {
+                    let content = buf.subrange(1, len - 1);
+                    &&& post.last_error_offset == pre.last_error_offset
+                    &&& if sw(content, seq![0x78u8, 0x6d, 0x6c]) && (content.len() == 3 || is_ws(content[3])) {
+                            r matches Ok(Event::Decl(e)) && e.content.buf@ == content && e.content.name_len == 3
+                        } else {
+                            r matches Ok(Event::PI(e)) && e.content.buf@ == content && e.content.name_len == spec_name_len(content)
+                        }
+                } else {
+                    &&& r matches Err(Error::Syntax(SyntaxError::UnclosedPIOrXmlDecl))
+                    &&& post.last_error_offset == pre.offset - len - 2
+                }
+            }
+
+spec fn post_emit_start<'b>(pre: &ReaderState, post: &ReaderState, content: Seq<u8>, r: Event<'b>) -> bool {
+                &&& post.wf() && post.offset == pre.offset && post.config == pre.config
+                &&& post.last_error_offset == pre.last_error_offset
+                &&& post_emit_start_(pre, post, content, r)
+}
+spec fn post_emit_start_<'b>(pre: &ReaderState, post: &ReaderState, content: Seq<u8>, r: Event<'b>) -> bool {
+                let n = content.len() as int;
+                let s = pre.stack();
+                if n > 0 && content[n - 1] == 0x2f {
+                    let c = content.subrange(0, n - 1);
+                    let name = c.subrange(0, spec_name_len(c) as int);
+                    if pre.config.expand_empty_elements {
+                        &&& r matches Event::Start(e) && e.buf@ == c && e.name_len == spec_name_len(c)
+                        &&& post.state is InsideEmpty
+                        &&& post.stack() == s.push(name)
+                    } else {
+                        &&& r matches Event::Empty(e) && e.buf@ == c && e.name_len == spec_name_len(c)
+                        &&& post.state == pre.state
+                        &&& post.stack() == s
+                    }
+                } else {
+                    let name = content.subrange(0, spec_name_len(content) as int);
+                    &&& r matches Event::Start(e) && e.buf@ == content && e.name_len == spec_name_len(content)
+                    &&& post.state == pre.state
+                    &&& post.stack() == s.push(name)
+                }
+            }
+
 /// the text of an owned decoded name, as it appears in error values (uninterpreted: outside the verified code)
 pub open spec fn dec_string(d: Decoder, bytes: Seq<u8>) -> String {
     spec_cow_into_owned(spec_unwrap_or_default(spec_decode(d, bytes)))
